@@ -54,16 +54,19 @@ pub fn world() -> World {
             "raise() delivers the signal synchronously to the only thread that matters; socket pairs deliver synchronously",
             "SURFNTERM is unset (process-wide LazyLock); TERM/COLORTERM are drawn per run",
             "frame delimiters are flush(), poll() and frames_drop(); the library's own size query written on SIGWINCH is filtered from the observed stream",
-            "closing-sequence clause is only demanded when the tty never failed, the peer answers DA1 and drains fast enough for dispose's one second budget",
+            "closing-sequence and complete-release clauses are demanded whenever the tty never failed, no stall or failure began during dispose, the output copy is not failing and at most three termination signals arrived during dispose - however slowly the terminal drains and whether or not it answers DA1",
+            "a read of a readable non-blocking tty may fail with EAGAIN or EINTR (at most three times per run, the data stays); writev/readv are one write/read of the concatenation; tcsetattr(TCSAFLUSH) may fail once with EINTR during the release",
+            "Error::Quit needs a cause: while the tty is alive there are never more quits than termination signals raised",
+            "the escape key on its own is typed only as the last input of a session, and only when the known finding about it is not being avoided; Terminal::drain() likewise",
         ],
-        rule: "one run = one session: construction against a drawn emulator personality, a drawn app script of write/execute/flush/poll(None|0|d)/frames_pending/frames_drop, concurrent actor events (typed keys, waker calls, signals, emulator drains and replies, stalls, hang-up, EIO) placed by the tape, a drop point, then dispose; non-trivial = at least one fault fired or an actor event ran inside a poll; distinct = distinct hash of the (actor, action, result kind) sequence",
+        rule: "one run = one session: construction against a drawn emulator personality, a drawn app script of write/execute/flush/poll(None|0|d|Duration::MAX)/drain/frames_pending/frames_drop/position/run, concurrent actor events (typed keys, waker calls, signals, emulator drains and replies, stalls, hang-up, EIO) placed by the tape, a drop point, then dispose; non-trivial = at least one fault fired or an actor event ran inside a poll; distinct = distinct hash of the (actor, action, result kind) sequence",
         runs: |prop, tier| match (prop, tier) {
             ("C16", Tier::Quick) => 100_000,
             ("C16", Tier::Thorough) => 4_000_000,
             (_, Tier::Quick) => 150_000,
             (_, Tier::Thorough) => 5_000_000,
         },
-        features: &["terminal-stops-reading"],
+        features: &["terminal-stops-reading", "lone-escape", "app-uses-drain"],
     }
 }
 
